@@ -792,6 +792,10 @@ class Effects:
         if d == "vars" and e.args:
             v = self.val(e.args[0], f)
             return Val(v.own, v.cont)
+        gw = self.inf.getattr_wrapper(e, f) if isinstance(f, Func) else None
+        if gw is not None:
+            e = ast.Call(func=ast.Name(id="getattr", ctx=ast.Load()), args=[gw[0], gw[1]] + ([gw[2]] if gw[2] is not None else []), keywords=[])
+            d = "getattr"
         if d == "getattr" and len(e.args) >= 2:
             key = e.args[1]
             names = None
